@@ -242,6 +242,14 @@ def position_monitor(rec, o, vals, w, text_of):
     text = text_of(path)
     if text is None:
         return
+    if vals.get('type') in ('module', 'namespace') and (line, col) == (1, 0):
+        # A module itself has no name token: jedi reports the start of the file, (1, 0).
+        # The statement's "text at line/column is its name" cannot apply to that convention;
+        # it is recorded, not charged (import names of type module elsewhere are checked).
+        first = parso.split_lines(text, keepends=True)[0] if text else ''
+        if not first.startswith(name):
+            rec.ev('c17:module_start_convention_not_claimed')
+            return
     rec.ev('c17:positions_checked')
     lines = parso.split_lines(text, keepends=True)
     if not 1 <= line <= len(lines):
@@ -351,8 +359,14 @@ def completion_algebra(rec, comps, code, line, column, fuzzy, w, expected_fragme
         seen.add(pair)
         if not special:
             ident_entries.append((name, frag))
-    # order among identifier-like entries
-    if len(ident_entries) > 1:
+    # order among identifier-like entries (dict-key and file-name completions, which jedi
+    # documents as going first, are not identifier completions: when the fragment follows a
+    # bracket or quote the order clause is not claimed)
+    n0 = len(ident_entries[0][1]) if ident_entries else 0
+    lead = before[:len(before) - n0].rstrip()
+    if lead[-1:] in ('[', '"', "'"):
+        rec.ev('c04:orders_skipped_dictkey_context')
+    elif len(ident_entries) > 1:
         rec.ev('c04:orders_checked')
         keys = [sort_key_model(nm, fr) for nm, fr in ident_entries]
         for a, b, ea, eb in zip(keys, keys[1:], ident_entries, ident_entries[1:]):
